@@ -79,9 +79,16 @@ impl CaseInput for PkceFromCase {
                     oracle.push(("C04:challenge-value".into(), format!("got ({c},{meth}), RFC 7636 says ({want},{wm})")));
                 }
             }
-            Err(_) => {
+            Err(payload) => {
                 if legal {
                     oracle.push(("C04:legal-length-refused".into(), format!("verifier of {blen} bytes refused")));
+                }
+                // a refusal must not PUBLISH the secret it refuses: the panic message (it goes to stderr, logs, crash reporters)
+                // is not the named accessor
+                let msg = payload.downcast_ref::<String>().cloned().or_else(|| payload.downcast_ref::<&str>().map(|s| s.to_string())).unwrap_or_default();
+                let probe: String = self.verifier.chars().take(24).collect();
+                if probe.chars().count() >= 6 && (msg.contains(&probe) || msg.contains(&format!("{:?}", probe).trim_matches('"').to_string())) {
+                    oracle.push(("C10:panic-message-reveals-secret".into(), format!("the refusal of a {blen}-byte verifier panicked with a message containing the verifier: {:?}", msg.chars().take(120).collect::<String>())));
                 }
             }
         }
